@@ -69,8 +69,8 @@ class Statistics:
         return Statistics(
             sum=self.sum + other.sum,
             sum2=self.sum2 + other.sum2,
-            min=min(self.min, other.min),
-            max=max(self.max, other.max),
+            min=np.minimum(self.min, other.min),  # (Invalid = NaN on either side wins)
+            max=np.maximum(self.max, other.max),
             weight=self.weight + other.weight,
             median=np.nan,
         )
